@@ -267,6 +267,8 @@ impl Zone {
 
         if other.soa.is_some() {
             self.soa = other.soa;
+            // the other zone's SOA RR replaces ours
+            self.records.this.remove(&RecordType::SOA);
         }
 
         self.records.merge(other.records);
